@@ -487,6 +487,7 @@ func (p *Peer) retryReplicators(ctx context.Context) {
 			return
 		}
 		log.ErrorContextE(ctx, "Failed iterate replicator retry ID keys", err)
+		return
 	}
 	defer closeQueryResults(iter)
 	now := time.Now()
@@ -611,6 +612,12 @@ func (p *Peer) retryReplicator(ctx context.Context, peerID string) {
 	})
 	if err != nil {
 		log.ErrorContextE(ctx, "Failed iterate replicator retry docID keys", err)
+		// leave the retrying state so that the replicator is picked up again at the next retry
+		err = p.handleCompletedReplicatorRetry(ctx, peerID, false)
+		if err != nil {
+			log.ErrorContextE(ctx, "Failed to handle completed replicator retry", err)
+		}
+		return
 	}
 	defer closeQueryResults(iter)
 
